@@ -20,11 +20,23 @@ def run(ctx):
         C05.one(ctx, sc, ctx.rng.randrange(1 << 30), component="batcher.fault", prop="C03")
 
 
+    # executor level: a synchronous checkpoint issued inside a map/parallel branch returns only when a successful call
+    # carried it (early completion, branches racing with the batch's completion record)
+    from harness import comp_executor
+    for i in range(ctx.scale(150, 3000)):
+        comp_executor.one(ctx, "C03", comp_executor.gen_late_begin(ctx.rng) if i % 2 else comp_executor.gen_scenario(ctx.rng),
+                          ctx.rng.randrange(1 << 30), component="executor")
+
+
 def search(ctx):
     comp_engine.search(ctx, "C03")
 
 
 def replay(ctx, rec):
+    if "blocks" in (rec["case"].get("scenario") or {}):
+        from harness import comp_executor
+        comp_executor.replay(ctx, rec, "C03")
+        return
     if "scenario" in rec["case"] and "producers" in rec["case"]["scenario"]:
         from harness.props import C05
         C05.one(ctx, rec["case"]["scenario"], 0, schedule=rec["case"].get("decisions"), component="batcher.fault.replay", prop="C03")
